@@ -164,8 +164,12 @@ def run(ctx):
         ro = ctx.rng.random() < 0.85
         calls = []
         tabf = [float("inf") if v == INF_R else float(v) for v in tab]
-        def lrf(xx, tabf=tabf, calls=calls):
-            calls.append(len(xx)); return tabf[len(xx)]
+        rk = ctx.rng.choice(["float", "float", "intish", "np", "longdouble"]); ctx.count("ratio-returns-" + rk)
+        def lrf(xx, tabf=tabf, calls=calls, rk=rk):
+            calls.append(len(xx)); v = tabf[len(xx)]
+            if rk == "intish":      # e.g. 2**k: a Python int whenever the ratio is a whole number, a float otherwise
+                return int(v) if v == v and abs(v) != float("inf") and v == int(v) else v
+            return {"np": np.float64, "longdouble": np.longdouble}.get(rk, float)(v)
         r = sprt_call(S, lrf, float(al), float(be), x, ro)
         want = spec(lambda xx: tabf[len(xx)], float(al), float(be), x, ro)
         if INF_R in tab:
